@@ -124,6 +124,19 @@ pub fn rand_creds(rng: &mut Rng) -> String {
     }
 }
 
+/// two different credentials whose key *material* reads the same: long-term (u, r, p) and the short-term password "u:r:p"
+pub fn confusable_creds(rng: &mut Rng) -> (String, String) {
+    let f = |rng: &mut Rng| -> String {
+        let n = 1 + rng.below(8) as usize;
+        let s = rand_utf8(rng, n);
+        if s.is_empty() { "x".to_string() } else { s }
+    };
+    let (u, r, p) = (f(rng), f(rng), f(rng));
+    let long = format!("l:{}:{}:{}", hex(u.as_bytes()), hex(r.as_bytes()), hex(p.as_bytes()));
+    let short = format!("s:{}", hex(format!("{}:{}:{}", u, r, p).as_bytes()));
+    (long, short)
+}
+
 // ---------------------------------------------------------------- execution
 
 fn render_attrs<'a>(it: impl Iterator<Item = RawAttribute<'a>>) -> String {
